@@ -306,6 +306,49 @@ func check(c Case, o *stats.Obs) error {
 			}
 		}
 	}
+	// Reading a decoded message - displaying it, asking its cells for ranges, phase ranges and rates - does not
+	// change what was decoded.
+	{
+		frame := m.Frame()
+		var after *Flat
+		if m.IsMSM7() {
+			if k, _ := msm7.GetMessage(frame, lv); k != nil {
+				_ = k.String()
+				for _, row := range k.Signals {
+					for i := range row {
+						_, _, _, _ = row[i].RangeInMetres(), row[i].PhaseRange(), row[i].PhaseRangeRate(), row[i].PhaseRangeRateDoppler()
+						_, _, _ = row[i].GetAggregateRange(), row[i].GetAggregatePhaseRange(), row[i].GetAggregatePhaseRangeRate()
+						_ = row[i].String()
+					}
+				}
+				for i := range k.Satellites {
+					_ = k.Satellites[i].String()
+				}
+				after = flat7(k)
+			}
+		} else {
+			if k, _ := msm4.GetMessage(frame, lv); k != nil {
+				_ = k.String()
+				for _, row := range k.Signals {
+					for i := range row {
+						_, _ = row[i].RangeInMetres(), row[i].PhaseRange()
+						_, _ = row[i].GetAggregateRange(), row[i].GetAggregatePhaseRange()
+						_ = row[i].String()
+					}
+				}
+				for i := range k.Satellites {
+					_ = k.Satellites[i].String()
+				}
+				after = flat4(k)
+			}
+		}
+		if after != nil {
+			if d := diff(after, w); d != "" {
+				o.Key = "fields-changed-by-reading"
+				return fmt.Errorf("the decoded fields of a type %d message (shape %s) changed when the message was displayed and its cells were asked for their values: %s\nframe %x", m.Type, c.Shape, d, frame)
+			}
+		}
+	}
 	// The owner of a decoded message may do what it likes with it - strike cells out of the matrix, zero
 	// satellites and signals.  The next decode (of the same frame here) must not notice.
 	{
